@@ -9,6 +9,8 @@ OUT = '/verif/mutants'
 
 M = [
  # id, name, file, old, new
+ ("C14", "tower-top-not-linked", "skiplist/skiplist.go", "for i := 1; i <= int(itemLevel); i++ {", "for i := 1; i < int(itemLevel); i++ {"),
+ ("C13", "tower-top-succ-uninit", "skiplist/skiplist.go", "for i := 0; i <= int(itemLevel); i++ {\n\t\tx.setNext(i, buf.succs[i], false)", "for i := 0; i < int(itemLevel); i++ {\n\t\tx.setNext(i, buf.succs[i], false)"),
  ("C01", "vis-le-to-lt", "iterator.go", "itm.bornSn > it.snap.sn", "itm.bornSn >= it.snap.sn"),
  ("C01", "vis-drop-dead-gt0", "iterator.go", "(itm.deadSn > 0 && itm.deadSn <= it.snap.sn)", "(itm.deadSn <= it.snap.sn)"),
  ("C01", "delta-pred-ge", "nitro.go", "itm.deadSn > ctx.sn", "itm.deadSn >= ctx.sn"),
